@@ -47,6 +47,21 @@ class C01(Prop):
     def oracle(self, tier, ctx):
         rng = core.Rng(self.id + '-oracle')
         fails = dec.run(ctx, self.structured(tier, rng))
+        # the same two outcomes when the allocator refuses a request part-way (every single-fault and fail-stop schedule over nested inputs, incl. chunked
+        # strings and indefinite containers whose slot arrays grow several times): no crash, an item or NULL plus a code, nothing left allocated
+        from .C05 import C05
+        fl = C05().faulted(tier, core.Rng('C01-faulted'))
+        for e in ('7f616161626163616461656166616761686169ff', '5f4161416241634164416541664167416841694161ff', 'bf0102030405060708090a0b0c0d0e0f1011ff', '9f0102030405060708090aff'):
+            for k in range(0, 40): fl += ['LOAD %s 1 %d' % (e, k), 'LOAD %s 2 %d' % (e, k)]
+        fo, rc, err = ctx.run_c(fl)
+        if rc != 0:
+            i, l, e = core.first_crash_line(ctx.harness, fl)
+            fails.append({'input': l, 'expected': 'an item, or NULL plus an error code', 'observed': 'implementation aborted / sanitizer report', 'why': e[-1000:]})
+            return fails[:20]
+        for l, o in zip(fl, fo):
+            ctx.count(l, o); ctx.bump('faulted')
+            if not ((o.startswith('ERR ') and ' live=0' in o) or (o.startswith('OK ') and ' final=0' in o)):
+                fails.append({'input': l, 'expected': 'ERR <code> ... live=0  or  OK <tree> ... final=0', 'observed': o[:300], 'why': 'a third outcome: neither an item nor a clean failure (something was left allocated)'})
         lines = self.batches(tier)
         out, rc, err = core.run_parallel(ctx.harness, lines, jobs=12)
         if rc != 0:
@@ -70,6 +85,10 @@ class C01(Prop):
             a, rc, _ = ctx.run_c([l]); b, _, _ = ctx.run_spec([l])
             return [dict(rp['failure'], observed=(a[0] if a else 'abort rc=%d' % rc))] if rc != 0 or a != b else []
         w = l.split(); b = bytes.fromhex(w[1]) if w[1] != '-' else b''
+        if len(w) == 4 and w[2] in ('1', '2'):
+            o, rc, _ = ctx.run_c([l])
+            ok = rc == 0 and o and ((o[0].startswith('ERR ') and ' live=0' in o[0]) or (o[0].startswith('OK ') and ' final=0' in o[0]))
+            return [] if ok else [dict(rp['failure'], observed=(o[0] if o else 'abort rc=%d' % rc))]
         return dec.run(ctx, [b])
 
 
